@@ -11,6 +11,8 @@
   `pushPointer` — and the label positions of every literally written name in `gLabels`.
 -/
 import QV.Proofs.WriterSession
+import QV.Proofs.NameDecode
+import QV.Proofs.NameRoundTrip
 
 namespace QV.C13
 open QV QV.Writer QV.ServerSafety
@@ -27,12 +29,13 @@ open QV QV.Writer QV.ServerSafety
   *denotes* the name it was given: the name stored at that position — read by following labels and
   pointers the way the writer itself reads prior names — matches the given name label by
   label) together with `C13_scan_correct`.
-  What is not proved: that the *independent* decoder `specDecodeName` reads the same labels
-  from those positions (`NameAt` follows pointers with "target < pointer position", the RFC
-  relation `Decodes` demands "target < start of the current chunk"; the writer only emits
-  targets below the start of the name being written, but that extra fact is not carried in
-  `NameAt`). The oracle closes that gap on every generated session (`paudit`: the audit and the
-  decoding are evaluated with `specDecodeMsg` on the model's and on the implementation's octets). -/
+  That the *independent* decoder `specDecodeName` reads the same labels from those positions is
+  `C13_targets_decode` / `C13_recorded_label_starts_decode`: `NameAt` follows pointers with "target
+  < pointer position" (what the writer's own scan needs), the RFC relation `Decodes` demands
+  "target < start of the chunk that contains the pointer"; the writer only emits targets below the
+  start of the name it is writing, and the invariant carries this (`NameAtC`, `WInv.clabs`): every
+  recorded label start begins a name of the RFC relation of at most 255 octets.
+  Hence `C13_holds : C13_full`. -/
 
 def C13_full : Prop :=
   ∀ (buf : Bytes) (limit : Nat) (s : State) (ops : List Op),
@@ -80,6 +83,45 @@ theorem C13_pointer_log_sound_finish (s : State) (hI : I s) (macFn : Tsig → Li
     (hmac : MacLenOK macFn) : ∃ r s', finishWithMac macFn s = (.ok r, s') ∧ PtrLogOK s' :=
   finishWithMac_ok macFn hmac s hI
 
+/-! ## the independent decoder succeeds at every target -/
+
+/-- **At every recorded label start** of a valid writer state — in particular at every pointer
+    target and at every anchor — the independent RFC 1035 §4.1.4 decoder `specDecodeName`, run on
+    the message written so far, succeeds and reads exactly the labels stored there (a name of at
+    most 255 octets, every pointer going below the start of the chunk it ends). -/
+theorem C13_recorded_label_starts_decode (s : State) (hI : I s) (g : Nat) (hg : g ∈ s.gLabels) :
+    ∃ ls k, NameAtC (GL s) s.octets s.cursor g g ls ∧
+      Spec.specDecodeName (s.octets.extract 0 s.cursor) g = some (wireOf ls, ls.length + 1, k) :=
+  cstored_specDecodeName (hI.winv.clabs g hg) (Nat.le_trans hI.winv.cur_av hI.winv.av_size)
+
+/-- … so it succeeds at the target of every pointer emitted -/
+theorem C13_targets_decode (s : State) (hI : I s) (e : PtrEv) (he : e ∈ s.gPtrs) :
+    ∃ w n k, Spec.specDecodeName (s.octets.extract 0 s.cursor) e.target = some (w, n, k) := by
+  obtain ⟨_, _, _, _, hmem, _⟩ := hI.log e he
+  obtain ⟨ls, k, _, hd⟩ := C13_recorded_label_starts_decode s hI e.target hmem
+  exact ⟨_, _, _, hd⟩
+
+/-- **C13 holds**: for all sequences of calls that respect the hint contract, in all modes. -/
+theorem C13_holds : C13_full := by
+  intro buf limit s ops hnew hr s' e he
+  have hI : I s' := (run_I _ ops (new_i buf limit s hnew) hr).2
+  obtain ⟨h1, _, h3, h4, h5, _⟩ := hI.log e he
+  have hperm := C13_pointers_only_where_permitted buf limit s hnew ops e he
+  exact ⟨h1, h3, h4, h5, hperm.1, hperm.2, C13_targets_decode s' hI e he⟩
+
+/-! non-vacuity: a session that respects the contract and emits two pointers (owner = QNAME,
+    CNAME target sharing a suffix with it) -/
+
+def nvOps : List Op := [.addQuestion ⟨[[119, 119, 119], [97]]⟩ 1 1,
+  .addRr .answer (.direct .none) ⟨[[119, 119, 119], [97]]⟩ 5 1 60 [1, 98, 1, 97, 0] none]
+
+def nvS : State := match Writer.new (Array.replicate 64 0) 64 with | .ok s => s | _ => default
+
+example : Writer.new (Array.replicate 64 0) 64 = .ok nvS ∧ Respects { w := nvS } nvOps ∧
+    ((run { w := nvS } nvOps).1.w.gPtrs.map fun e => (e.pos, e.target)) = [(37, 16), (23, 12)] :=
+  ⟨rfl, ⟨(by decide : WName.WF ⟨[[119, 119, 119], [97]]⟩),
+    ⟨(by decide : WName.WF ⟨[[119, 119, 119], [97]]⟩), trivial⟩, trivial⟩, by decide +kernel⟩
+
 /-- **The heuristic scan is correct** (`write_compressed_unhinted_name`): with valid prior names
     it is computed without a panic; if it decides "the first `k` labels, then a pointer to `pp`",
     then `k` is a proper prefix of the labels, `pp` is a recorded real label start in pointer
@@ -103,6 +145,19 @@ theorem C13_scan_correct {G : Nat → Prop} {oct : Bytes} {cur : Nat} {mode : CM
 theorem C13_written_names_denote (hint : Hint) (n : WName) (s : State) (h : WInv s) (hn : n.WF)
     (hh : Writer.HintOK s hint n) : NameSpec s n (writeHintedName hint n s) :=
   writeHintedName_spec hint n s h hn hh
+
+/-- **The round trip of one written name, through the independent decoder**, in every compression
+    mode: whatever `write_hinted_name` wrote for the name `n` at the cursor (all labels; some labels
+    and a pointer; a bare pointer — hinted or found by the scan), `specDecodeName`, run on the message
+    written so far from that position, yields a name with `n`'s number of labels that equals `n` up
+    to ASCII case, and octet for octet in `CasePreserving` and `Disabled` mode. -/
+theorem C13_written_name_round_trip (hint : Hint) (n : WName) (s : State) (h : WInv s) (hn : n.WF)
+    (hh : Writer.HintOK s hint n) (p : Option Prior) (hok : (writeHintedName hint n s).1 = .ok p) :
+    ∃ w k, Spec.specDecodeName
+        ((writeHintedName hint n s).2.octets.extract 0 (writeHintedName hint n s).2.cursor) s.cursor
+          = some (w, n.len, k) ∧
+      w.map lowerU8 = n.wire.map lowerU8 ∧ (s.mode ≠ .standard → w = n.wire) :=
+  writeHintedName_round_trip hint n s h hn hh p hok
 
 /-! ## which RDATA may be compressed (tie to the source: the table is *generated* from
     `Rdata::components` and the `components_as_*` constructors on every run) -/
